@@ -9,7 +9,7 @@
      stair_m p n = floor(p*n)  number of full steps
      stair p n k               1/n for k < m, p - m/n for k = m, 0 for k > m *)
 From Coq Require Import String QArith Qabs Qminmax ZArith Bool Arith List Lqa.
-From Ropt Require Import Base.Num Base.ListX Model.Filters Proofs.SortX Proofs.Filters.
+From Ropt Require Import Base.Num Base.ListX Model.Filters Proofs.SortX Proofs.Filters Proofs.FiltersTies Proofs.FiltersSeq Proofs.FiltersAccept.
 Import ListNotations.
 Open Scope Q_scope.
 
@@ -109,6 +109,111 @@ Theorem C04_empty_is_too_few_constraint : forall cfg sort p objs c, 0 < p -> p <
     else Ok (cvar_weights p (cvar_constraint_keys cfg sort c) (col0_failed c)).
 Proof. exact cvar_constraint_outcome. Qed.
 
+(* the staircase pins the vector down: any vector that carries stair p n k at position k of SOME valid ranking of the
+   successful realizations (values non-decreasing, ties in any order) and 0 outside it agrees with the model at every
+   position, and -- when the ranking values are pairwise distinct -- equals it entry by entry *)
+Theorem C04_unique : forall p values failed idx' w',
+  length failed = length values -> 0 < p -> p <= 1 ->
+  valid_order values failed idx' ->
+  (forall k, (k < length idx')%nat -> nth (nth k idx' 0%nat) w' 0 == stair p (length idx') k) ->
+  forall k, (k < length idx')%nat ->
+    nth (nth k idx' 0%nat) values 0 == nth (nth k (ranked failed values) 0%nat) values 0 /\
+    nth (nth k idx' 0%nat) w' 0 == nth (nth k (ranked failed values) 0%nat) (cvar_weights p values failed) 0.
+Proof. exact cvar_unique. Qed.
+
+Theorem C04_unique_distinct : forall p values failed idx' w',
+  length failed = length values -> 0 < p -> p <= 1 ->
+  distinct_values values failed ->
+  valid_order values failed idx' ->
+  (forall k, (k < length idx')%nat -> nth (nth k idx' 0%nat) w' 0 == stair p (length idx') k) ->
+  (forall r, ~ In r idx' -> nth r w' 0 == 0) ->
+  forall r, nth r w' 0 == nth r (cvar_weights p values failed) 0.
+Proof. exact cvar_unique_distinct. Qed.
+
+(* np.argsort fixes nothing about the order of tied values.  For EVERY ranking idx it may return (cvar_along is the
+   code of _get_cvar_weights_from_percentile run along idx; cvar_weights is cvar_along along the model's ranking):
+   n = number of successes, position k carries stair p n k, the value ranked at position k and the weight at position
+   k are those of the model, and the failed realizations carry the literal 0 *)
+Theorem C04_tie_robust : forall p values failed idx,
+  length failed = length values -> 0 < p -> p <= 1 -> valid_order values failed idx ->
+  let w := cvar_along p idx (length values) in
+  length idx = count_ok failed /\
+  (forall k, (k < length idx)%nat ->
+     nth (nth k idx 0%nat) w 0 == stair p (count_ok failed) k /\
+     nth (nth k idx 0%nat) values 0 == nth (nth k (ranked failed values) 0%nat) values 0 /\
+     nth (nth k idx 0%nat) w 0 == nth (nth k (ranked failed values) 0%nat) (cvar_weights p values failed) 0) /\
+  (forall r, succeeded failed r = false -> nth r w 0 = 0).
+Proof. exact cvar_along_tie_robust. Qed.
+
+Theorem C04_model_is_along : forall p values failed,
+  cvar_weights p values failed = cvar_along p (ranked failed values) (length values).
+Proof. exact cvar_weights_along. Qed.
+
+(* the CVaR tail mean of a function that is constant on tied ranking values (in particular of the ranked function
+   itself) does not depend on the tie order *)
+Theorem C04_tail_mean_tie_invariant : forall p values failed idx f,
+  length failed = length values -> valid_order values failed idx ->
+  (forall a b, nth a values 0 == nth b values 0 -> nth a f 0 == nth b f 0) ->
+  tail_mean p idx f == tail_mean p (ranked failed values) f.
+Proof. exact tail_mean_tie_invariant. Qed.
+
+(* through the evaluator (construction of all filters, NaN propagation, the filter loop, the mean estimator): an
+   objective mapped to a cvar-objective filter is REPORTED as the CVaR_p tail mean of its empirical distribution over
+   the successful realizations, ranked by the weighted sum of the chosen objectives, largest first *)
+Theorem C04_reported_value : forall cfg filters fm cfm rmin objs0 cns0 e j sort p,
+  evaluate cfg filters (Some fm) cfm rmin objs0 cns0 = Ok e ->
+  length fm = length (c_ow cfg) -> (j < length fm)%nat ->
+  znth (nth j fm (-1)%Z) filters = Some (CvarObjective sort p) -> 0 < p -> p <= 1 ->
+  let objs := fst (propagate_nan objs0 cns0) in
+  let failed := col0_failed objs in
+  (rmin <= count_ok failed)%nat -> (0 < count_ok failed)%nat ->
+  exists fo co v,
+    e_functions e = Some (fo, co) /\ nth j fo None = Some v /\
+    v == tail_mean p (ranked failed (cvar_objective_keys cfg sort objs)) (column j objs).
+Proof. exact evaluate_cvar_objective_value. Qed.
+
+(* gradients: the gradient results of point k -- returned by ANY request sequence on the evaluator object, also by the
+   gradient-only request that re-uses the cached function result (C05_any_request_order) -- report for such an objective
+   the CVaR_p tail mean of the realizations' gradients along the ranking of the FUNCTION values of k, whenever no
+   realization is lost to perturbation failures *)
+Theorem C04_gradient_tail_mean : forall env k g fm j sort p,
+  fresh_gradient env k = Ok g -> s_ofm env = Some fm ->
+  length fm = length (c_ow (s_cfg env)) -> (j < length fm)%nat ->
+  znth (nth j fm (-1)%Z) (s_filters env) = Some (CvarObjective sort p) -> 0 < p -> p <= 1 ->
+  exists pt e, nth_error (s_points env) k = Some pt /\ fresh_function env k = Ok e /\
+    let objs := fst (propagate_nan (pt_objs pt) (pt_cons pt)) in
+    let failed := col0_failed objs in
+    (g_failed g = failed -> length (pt_oslope pt) = length objs ->
+     (s_rmin env <= count_ok failed)%nat -> (0 < count_ok failed)%nat ->
+     exists go gc v, g_gradients g = Some (go, gc) /\ nth j go None = Some v /\
+       v == tail_mean p (ranked failed (cvar_objective_keys (s_cfg env) sort objs)) (column j (somes (pt_oslope pt)))).
+Proof. exact gradient_cvar_objective_value. Qed.
+
+(* an evaluation never ends with another exit code than TOO_FEW_REALIZATIONS because of a filter, and it produces
+   values only if every filter in use returned weights (for a CVaR filter: some realization succeeded) *)
+Theorem C04_abort_is_too_few : forall cfg filters ofm cfm rmin objs0 cns0,
+  let objs := fst (propagate_nan objs0 cns0) in
+  let cns := snd (propagate_nan objs0 cns0) in
+  match evaluate cfg filters ofm cfm rmin objs0 cns0 with
+  | Ok _ => forall k m, nth_error filters k = Some m -> in_use ofm cfm (Z.of_nat k) = true ->
+                        exists w, get_weights cfg m objs cns = Ok w
+  | Abort c => c = too_few /\
+               exists k m, nth_error filters k = Some m /\ in_use ofm cfm (Z.of_nat k) = true /\
+                           get_weights cfg m objs cns = Abort too_few
+  | Raise _ => True
+  end.
+Proof. exact evaluate_in_use. Qed.
+
+(* the exact clauses of the predicate the correspondence checker evaluates on the implementation's vectors (stair_ok):
+   an accepted vector has the ensemble's length, the literal value 0 (as a rational) on every failed realization and no
+   negative entry -- no tolerance is involved in these *)
+Theorem C04_checker_sound_exact : forall p values failed w,
+  stair_ok p values failed w = true ->
+  length w = length failed /\
+  forall r, (r < length failed)%nat ->
+    (nth r failed true = true -> nth r w 0 == 0) /\ (nth r failed true = false -> 0 <= nth r w 0).
+Proof. exact stair_ok_sound_basic. Qed.
+
 (* non-vacuity: the input of the repaired defect F04a (10 realizations, p = the double 0.3): three realizations carry
    1/10, the fourth the (positive, tiny) remainder, nothing is negative; and an ensemble with a failed member *)
 Example C04_example :
@@ -124,6 +229,24 @@ Example C04_example :
     = [0; 0; 1 / nq 3; Qmax (Q_ 1 2 - nq 1 * (1 / nq 3)) 0].
 Proof. vm_compute. repeat split; reflexivity || discriminate. Qed.
 
+(* non-vacuity of the evaluator-level statements: 3 realizations (the second failed), objective 0 under a cvar-objective
+   filter with p = 1/2: a function request, then a gradient-only request that re-uses the cached result; the reported
+   value is the tail mean (1/p) * ((1/2) * 3) = 3 of {3, 1}, the gradient the tail mean of the slopes *)
+Example C04_example_sequence :
+  let cfg := {| c_rw := [Q_ 1 3; Q_ 1 3; Q_ 1 3]; c_ow := [Q_ 1 1]; c_lower := []; c_upper := [] |} in
+  let pt := {| pt_objs := [[Some (Q_ 3 1)]; [None]; [Some (Q_ 1 1)]]; pt_cons := None;
+               pt_oslope := [[Q_ 2 1]; [Q_ 7 1]; [Q_ 5 1]]; pt_cslope := []; pt_pfail := [[false]; [false]; [false]] |} in
+  let env := {| s_cfg := cfg; s_filters := [CvarObjective [0%nat] (Q_ 1 2)]; s_ofm := Some [0%Z]; s_cfm := None;
+                s_rmin := 1; s_pmin := 1; s_points := [pt] |} in
+  exists e g, run_direct env None [ReqF 0; ReqG 0] = [Ok [RFun e]; Ok [RGrad g]] /\
+    fresh_gradient env 0 = Ok g /\ g_ow g = e_ow e /\
+    match e_ow e with Some [row] => list_eqb Qeqb row [Q_ 1 2; 0; 0] = true | _ => False end /\
+    match e_functions e, g_gradients g with
+    | Some ([Some v], None), Some ([Some d], None) => Qeqb v (Q_ 3 1) && Qeqb d (Q_ 2 1) = true
+    | _, _ => False
+    end.
+Proof. vm_compute. eexists. eexists. repeat split; reflexivity. Qed.
+
 Print Assumptions C04_staircase.
 Print Assumptions C04_exact_zeros.
 Print Assumptions C04_failed_zero.
@@ -136,3 +259,12 @@ Print Assumptions C04_worst_constraint.
 Print Assumptions C04_worst_direction.
 Print Assumptions C04_empty_is_too_few_objective.
 Print Assumptions C04_empty_is_too_few_constraint.
+Print Assumptions C04_unique.
+Print Assumptions C04_unique_distinct.
+Print Assumptions C04_tie_robust.
+Print Assumptions C04_model_is_along.
+Print Assumptions C04_tail_mean_tie_invariant.
+Print Assumptions C04_reported_value.
+Print Assumptions C04_gradient_tail_mean.
+Print Assumptions C04_abort_is_too_few.
+Print Assumptions C04_checker_sound_exact.
